@@ -128,10 +128,18 @@ pub fn append_rule(rule: Arc<Rule>) -> bool {
         .or_default()
         .insert(Arc::clone(&rule));
     let mut controller_map = CONTROLLER_MAP.lock().unwrap();
+    // the map keeps the rules as given; only the valid ones get a controller
+    let valid_res_rules: HashSet<_> = global_rule_map
+        .get(&rule.resource)
+        .unwrap()
+        .iter()
+        .filter(|r| r.is_valid().is_ok())
+        .cloned()
+        .collect();
     let mut placeholder = Vec::new();
     let new_tcs_of_res = build_resource_traffic_shaping_controller(
         &rule.resource,
-        global_rule_map.get(&rule.resource).unwrap(),
+        &valid_res_rules,
         controller_map
             .get_mut(&rule.resource)
             .unwrap_or(&mut placeholder),
